@@ -259,8 +259,8 @@ HARNESSES = [
     Harness(
         "distance_mask",
         h_distance_mask,
-        lambda tier, seed: [{"layout": "a4", "qshape": (1,)}, {"layout": "c3", "qshape": (1, 2), "proj": ("2", "-3")}] + ([{"layout": "b5", "qshape": (2, 1)}, {"layout": "a4", "qshape": (2, 2), "proj": ("1/2", "5")}] if tier == "thorough" else []),
-        bounds="concrete data layout, symbolic query points (shapes (1,), (1,2), (2,1), (2,2)) and maxdist (any sign), affine projection with symbolic offsets",
+        lambda tier, seed: [{"layout": "a4", "qshape": (1,)}, {"layout": "c3", "qshape": (1, 2), "proj": ("2", "-3")}] + ([{"layout": "b5", "qshape": (2, 1)}, {"layout": "b5", "qshape": (1,), "proj": ("1/2", "5")}, {"layout": "c3", "qshape": (2, 1), "proj": ("-1", "3")}] if tier == "thorough" else []),
+        bounds="concrete data layout, symbolic query points (shapes (1,), (1,2), (2,1)) and maxdist (any sign), affine projection with symbolic offsets",
         stubs=["cKDTree -> nearest contract"],
         extra_globals=_globals,
         engine={"oneshot": True, "timeout_ms": 60000},
